@@ -159,10 +159,15 @@ def wf_def(ct, cls: str, S: Any) -> List[Any]:
 
 # ----------------------------------------------------------------------------- conforms
 def feq(a: Any, b: Any, precision: Any) -> Any:
-    """Float equality under the declared precision (C02: `equals its fixed value`)."""
+    """Float equality under the declared precision (C02: `equals its fixed value`): without a
+    precision the documented tolerance (isclose); with precision p, equality after rounding to p
+    decimals -- where a scaled operand leaves the float range (or is not finite) rounding to p
+    decimals is the identity, so plain equality."""
     sc = z3.ToReal(M.pow10(M.int_of(precision)))
-    exact = z3.And(M.is_finite(a), M.is_finite(b),
-                   M.rnd(M.real_of(a) * sc) == M.rnd(M.real_of(b) * sc))
+    inrange = lambda x: z3.And(M.is_finite(x), M.real_of(x) * sc <= M.DBL_MAX, M.real_of(x) * sc >= -M.DBL_MAX)
+    exact = z3.If(z3.And(inrange(a), inrange(b)),
+                  M.rnd(M.real_of(a) * sc) == M.rnd(M.real_of(b) * sc),
+                  M.num_eq(a, b))
     return z3.If(precision == M.NilV, M.isclose_f(a, b), exact)
 
 
